@@ -140,4 +140,13 @@ PROPS = {
         "what": "model Router.URLPath vs implementation (string or panic) per call; spec: result = simultaneous filling of the skeleton (fill), rebuilt path = request path for %-free paths.",
         "assumes": ["bind names and literals are brace-free (guaranteed by the route grammar)"],
     },
+    "C11": {
+        "n_quick": 3000, "n_thorough": 80000,
+        "technique": "Coq proof (stack-based execution = lexical flat expansion, by nested induction over programs) + correspondence by probing the real router",
+        "level_text": "proof: C11_flat (exec p = flatten p for every registration program), C11_group_scope_restored, C11_autohead_get; tied to the code by running random programs (nesting depth <= 3, group handlers, Combo, Routes with comma lists and extra method strings, Any, AutoHead toggles, handler slices with spare capacity) on a real Flame and probing every declared (method, path) plus prefix-less paths: handler-id trace and parameters must equal those of the model's registrations fed to the router model",
+        "level_note": "trusts Coq kernel, extraction, glue; route paths of the programs are static or {placeholder} segments with unique route paths (no duplicate registrations, whose panic would leave the real group stack pushed); Go slice aliasing is outside the immutable model and is exercised on the implementation only",
+        "rule": "random programs of 2-6 top-level statements, groups nested up to depth 3 with paths /gK, '', /{gidK}, /gK/x; every route path unique; 4% end with a Combo using GET twice. Probes: each declared route with 3-7 methods, a third also without its group prefix. Non-trivial: nested groups or a Combo; distinct by input.",
+        "what": "per probe: not-found or (handler-id trace, params); whole program: ok or panic. Model: exec -> router model -> prediction; spec: same prediction from flatten.",
+        "assumes": ["unique (method, path) per program"],
+    },
 }
